@@ -226,6 +226,9 @@ def main(run: core.Run, only=None):
                 ph.append({"dir": "h", "hday": d, "shape": shape, "base": 0.2, "pc": 6.0, "ph": 5.0, "hh": hod})
                 ph.append({"dir": "both", "cday": d, "hday": "second" if d != "mid" else "penult", "shape": shape, "base": 0.0, "pc": 6.0, "ph": 5.0, "ch": hod, "hh": 23 - hod})
     run.drive([{"profile": "patterns", "patterns": [p] * 12, "params": params[0], "horizons": [12, 25]} for p in ph], family="peak-in-first-or-last-hour-of-a-day")
+    # small plants: every monthly peak below 0.1 kW (a single shallow test borehole, loads scaled down for a linearity check)
+    small = [dict(A[pi], pc=0.06, ph=0.05) for pi in ((8, 38, 70, 100, 130, 160) if quick else range(1, nA, 7))]
+    run.drive([{"profile": "patterns", "patterns": [p] * 12, "params": params[0], "horizons": [12, 25]} for p in small], family="peaks-below-100-W")
     misc = [{"profile": k, "params": p, "horizons": [12, 37]} for p in params[:3] for k in ("office", "mirror")]
     misc += [{"profile": "const", "value": val, "params": params[0], "horizons": [12, 37]} for val in (5000.0, -5000.0, 0.0)]
     run.drive(misc, family="misc")
